@@ -235,16 +235,33 @@ def body_sensitive(body):
     return why
 
 
+SCOPE = [None]      # body of the function being classified: lets sort_key_of resolve a key given by name (nested fn / local closure)
+
+
 def sort_key_of(mcall):
-    """Key expression of a sort call: '<element>' for sort()/sorted(), else the rendered key."""
+    """Key expression of a sort call: '<element>' for sort()/sorted(), else the rendered key.
+    A key given by name (a nested fn or a local closure) is resolved to its body, so that naming it changes nothing."""
     m = mcall["m"]
     if m in ("sort", "sorted", "sort_unstable", "sorted_unstable"):
         return "<element>"
     if not mcall["a"]:
         return "?"
     a = mcall["a"][0]
+    if a.get("k") == "path" and "::" not in a["p"] and SCOPE[0] is not None:
+        for n in walk(SCOPE[0]):
+            if n.get("k") == "item_fn" and n["name"] == a["p"] and n["body"].get("s"):
+                prm = [{"k": "p_ident", "n": (p["name"] if isinstance(p, dict) and "name" in p else str(p)), "l": n["l"]} for p in n.get("params", [])]
+                t = tail_expr(n["body"])
+                if t is not None:
+                    a = {"k": "closure", "params": prm, "body": t, "l": n["l"]}
+                break
+            if n.get("k") == "local" and show(n["pat"]) == a["p"] and n.get("init", {}).get("k") == "closure":
+                a = n["init"]
+                break
     if a.get("k") == "closure":
         body = a["body"]
+        if body.get("k") == "block" and len(body["s"]) == 1:
+            body = body["s"][0]
         if m in ("sort_by", "sorted_by", "sort_unstable_by"):
             # |a, b| a.K.cmp(&b.K)
             if body.get("k") == "mcall" and body["m"] == "cmp" and len(a["params"]) == 2:
@@ -293,6 +310,7 @@ def classify_site(syn, cgfn, r, mir_refs_at_line):
     if f is None or "body" not in f:
         return ("unknown", "?", "?", "no syntax tree for this site")
     par = parents(f["body"])
+    SCOPE[0] = f["body"]
     method = last_seg(r["def"])
     node = None
     if r.get("macro") and "for" in r["macro"]:
